@@ -61,7 +61,7 @@ def restrict(t, ctx):
         c = ctx.classify(row)
         if c is None:
             continue
-        out[row] = restrict(ch, ctx.child(c[0]))
+        out[row] = restrict(ch, ctx.child(c[0], row))
     return out
 
 
@@ -147,11 +147,11 @@ def _unchanged_check(d, old, new, ctx, path):
             walk(ch, path + (row,))
             cl = ctx.classify(row)
             if cl is not None and row in old and row in new:
-                if RL.plain(restrict(old[row], ctx.child(cl[0]))) != RL.plain(restrict(new[row], ctx.child(cl[0]))):
+                if RL.plain(restrict(old[row], ctx.child(cl[0], row))) != RL.plain(restrict(new[row], ctx.child(cl[0], row))):
                     raise Violation("unchanged-hides-change", f"{path + (row,)!r} is reported unchanged but its content differs between old and new", {})
         cl = ctx.classify(row)
         if cl is not None:
-            _unchanged_check(ch, old.get(row, {}), new.get(row, {}), ctx.child(cl[0]), path + (row,))
+            _unchanged_check(ch, old.get(row, {}), new.get(row, {}), ctx.child(cl[0], row), path + (row,))
 
 
 def _ordered_check(d, old, new, ctx, path, labels):
@@ -179,7 +179,7 @@ def _ordered_check(d, old, new, ctx, path, labels):
     for op, row, ch, _ in d:
         cl = ctx.classify(row)
         if cl is not None:
-            _ordered_check(ch, old.get(row, {}), new.get(row, {}), ctx.child(cl[0]), path + (row,), labels)
+            _ordered_check(ch, old.get(row, {}), new.get(row, {}), ctx.child(cl[0], row), path + (row,), labels)
 
 
 def _find_rewrite_unchanged(d, old, new, ctx):
@@ -193,7 +193,7 @@ def _find_rewrite_unchanged(d, old, new, ctx):
         if o is not None and n is not None:
             if RL.is_block(r) and any(c.get("rewrite") for c in r["children"]) and RL.plain(o) == RL.plain(n) and o and not ch:
                 return True
-            if _find_rewrite_unchanged(ch, o, n, ctx.child(r)):
+            if _find_rewrite_unchanged(ch, o, n, ctx.child(r, row)):
                 return True
     return False
 
